@@ -79,6 +79,35 @@ pub fn check_value<T: Serialize + DeserializeOwned + std::fmt::Debug>(ty: &str, 
             }
         }
     }
+    // the value serializers: any value, written as a single TOML value
+    {
+        let want_node = expected_node(&sd);
+        let mut out = String::new();
+        let r1 = v.serialize(toml::ser::ValueSerializer::new(&mut out)).map(|()| out).map_err(|e| e.to_string());
+        let r2 = v.serialize(toml_edit::ser::ValueSerializer::new()).map(|val| val.to_string()).map_err(|e| e.to_string());
+        for (who, res) in [("toml::ser::ValueSerializer", r1), ("toml_edit::ser::ValueSerializer", r2)] {
+            match (&res, &want_node) {
+                (Err(_), Err(_)) => st.class("value.unsupported-rejected"),
+                (Err(_), Ok(_)) if root_variant_may_fail(&sd) => st.class("value.root-variant-rejected"),
+                (Err(e), Ok(_)) => return Err(Failure::new("spurious-error", format!("{who} fails for a supported value of {ty}: {e}\nvalue: {v:?}"), case())),
+                (Ok(text), Err(why)) => {
+                    return Err(Failure::new("unsupported-accepted", format!("{who} writes an unsupported shape ({why:?}) of {ty} instead of returning an error: {text}\nvalue: {v:?}"), case()));
+                }
+                (Ok(text), Ok(want)) => {
+                    st.class("value.written");
+                    let doc = format!("k = {text}\n");
+                    let m = text_model(&doc).map_err(|e| Failure::new("invalid-output", format!("{who} for {ty} produced a value that is {e}: {text:?}\nvalue: {v:?}"), case()))?;
+                    let got = m.get("k").cloned().ok_or_else(|| Failure::new("invalid-output", format!("{who} for {ty}: {text:?} is not one value"), case()))?;
+                    model::diff(&got, want, Cmp::SERDE).map_err(|e| Failure::new("wrong-tree", format!("{who} for {ty}: the value text does not carry the data: {e}\ntext: {text}\nvalue: {v:?}"), case()))?;
+                    match T::deserialize(toml::de::ValueDeserializer::new(text)) {
+                        Ok(b) if sd_eq(&record(&b), &sd) => {}
+                        Ok(b) => return Err(Failure::new("roundtrip", format!("{who} then toml::de::ValueDeserializer for {ty}: value changed\ntext: {text}\nbefore: {v:?}\nafter:  {b:?}"), case())),
+                        Err(e) => return Err(Failure::new("roundtrip", format!("{who} for {ty}: the value text does not deserialize back: {e}\ntext: {text}\nvalue: {v:?}"), case())),
+                    }
+                }
+            }
+        }
+    }
     // Value::try_from / Table::try_from
     for (who, res) in [
         ("toml::Value::try_from", toml::Value::try_from(v).map_err(|e| e.to_string())),
@@ -216,7 +245,7 @@ fn gen_int_(t: &mut Tape) -> i64 {
 
 pub fn run(args: Args) -> ! {
     let mut rep = Report::new("C07", args.tier, args.seed);
-    rep.rule = "generated values of a family of derive(Serialize, Deserialize) types (all integer widths, f32/f64, bool, char, strings, options of scalars/tables/enums, all four enum variant kinds alone / in Vec / in maps / nested, tuples, tuple structs, newtypes, Vec<Vec<_>>, maps keyed by strings and unit variants, empty containers, date-times in fields, sequences, options and maps) plus unsupported shapes (None / unit in a sequence, None as a map value, integer map keys, u64 beyond i64, non-table roots). For toml::to_string, to_string_pretty, toml_edit::ser::to_string, to_string_pretty, to_document, Value::try_from and Table::try_from: the result is an error exactly for the unsupported shapes; otherwise the text is valid (reference), decodes to the tree computed from an independent model serializer by the documented mapping, and deserializes (toml::from_str and toml_edit::de::from_str / try_into) to a value equal under a NaN-total equality. non-trivial = a variant, table or option at depth >= 2; distinct by (type, value)".into();
+    rep.rule = "generated values of a family of derive(Serialize, Deserialize) types (all integer widths, f32/f64, bool, char, strings, options of scalars/tables/enums, all four enum variant kinds alone / in Vec / in maps / nested, tuples, tuple structs, newtypes, Vec<Vec<_>>, maps keyed by strings and unit variants, empty containers, date-times in fields, sequences, options and maps) plus unsupported shapes (None / unit in a sequence, None as a map value, integer map keys, u64 beyond i64, non-table roots). For toml::to_string, to_string_pretty, toml_edit::ser::to_string, to_string_pretty, to_document, Value::try_from and Table::try_from, and for the two ValueSerializers (any value written as one TOML value, read back with toml::de::ValueDeserializer): the result is an error exactly for the unsupported shapes; otherwise the text is valid (reference), decodes to the tree computed from an independent model serializer by the documented mapping, and deserializes (toml::from_str and toml_edit::de::from_str / try_into) to a value equal under a NaN-total equality. non-trivial = a variant, table or option at depth >= 2; distinct by (type, value)".into();
     rep.assumptions = vec!["the documented mapping serde data model -> TOML as implemented in serdefam::expected_node".into()];
     KNOWN_F4.store(rep.is_known("F4"), std::sync::atomic::Ordering::Relaxed);
     KNOWN_F19.store(rep.is_known("F19"), std::sync::atomic::Ordering::Relaxed);
